@@ -263,7 +263,13 @@ pub fn gen_plaintext(rng: &mut Rng, target: usize) -> Vec<u8> {
     // symbol alphabet ... (single-code Huffman trees, one distance only, no match at all)
     if rng.chance(1, 8) {
         let mut out: Vec<u8> = Vec::with_capacity(target + 8);
-        match rng.below(6) {
+        match rng.below(7) {
+            6 => {
+                // pure noise: compressors fall back to stored / huffman-only blocks and the
+                // compressed file is larger than its plaintext
+                out.resize(target, 0);
+                rng.fill(&mut out);
+            }
             0 => {
                 let p = rng.range(1, 6) as usize;
                 let pat: Vec<u8> = (0..p).map(|_| b'a' + rng.below(26) as u8).collect();
@@ -677,7 +683,18 @@ pub fn gen_stream(rng: &mut Rng, min_plain: usize, max_plain: usize) -> (Compres
     } else {
         gen_plaintext(rng, target)
     };
-    let compressor = Compressor::random(rng);
+    let compressor = if rng.chance(1, 10) {
+        // lazy matching with a tiny symbol buffer: a block boundary every 127-255 tokens, many of
+        // them right after a deferred match
+        Compressor::Zlib {
+            level: rng.range(4, 9) as i32,
+            strategy: 0,
+            window_bits: 15,
+            mem_level: rng.range(1, 2) as i32,
+        }
+    } else {
+        Compressor::random(rng)
+    };
     let raw = compressor.compress(&plain);
     (compressor, plain, raw)
 }
